@@ -41,6 +41,47 @@ func propC09(a *Analysis, r *Registry) {
 			b.Eq("C-swap", "stats.(*Sample).Sort/sorter.weights", b.pos(fn), fc.LitFieldAny("sampleSorter", "weights"), env, "s.Weights")
 			b.EqRF(rB, "stats.(*Sample).Sort/Sorted", b.pos(fn), fc.FieldAtExit(0, "Sorted"), S.True(), "Sorted is set on every path")
 			b.EqRF(rB, "stats.(*Sample).Sort/returns-receiver", b.pos(fn), fc.RetVal(0), env.Vars["s"].RF, "returns s")
+			// the elements are reordered only by sort.Float64s (unweighted) or by sort.Sort on the
+			// paired sorter: any other element write (a hand-written reversal, a fast path) can move
+			// the values without their weights
+			{
+				bad := ""
+				for _, sfc := range fc.BoundCallees(2) {
+					sfc := sfc
+					sfc.Ctx.Instrs(func(in ssa.Instruction) {
+						st, ok := in.(*ssa.Store)
+						if !ok {
+							return
+						}
+						if ia, isIA := st.Addr.(*ssa.IndexAddr); isIA {
+							base := sfc.Val(ia.X)
+							if base.Equal(env.MustParse("s.Xs")) || base.Equal(env.MustParse("s.Weights")) {
+								bad = a.W.InstrPos(st)
+							}
+						}
+					})
+				}
+				nSort := 0
+				for _, sfc := range fc.BoundCallees(2) {
+					nSort += len(sfc.CallsTo("sort.Sort")) + len(sfc.CallsTo("sort.Float64s"))
+				}
+				if bad != "" {
+					r.Fail("C-swap", "stats.(*Sample).Sort/element-writes", bad, "Sort writes elements of Xs/Weights itself, outside sort.Float64s / sort.Sort(sampleSorter): values can be reordered without their weights")
+				} else if nSort == 0 {
+					r.Undecided("C-swap", "stats.(*Sample).Sort/element-writes", b.pos(fn), "no call to sort.Sort / sort.Float64s found in Sort (vacuity)")
+				} else {
+					r.OK("C-swap", "stats.(*Sample).Sort/element-writes", b.pos(fn), "elements are reordered only through sort.Float64s / sort.Sort")
+				}
+			}
+			for _, sfc := range fc.BoundCallees(1) {
+				for _, c := range sfc.CallsTo("sort.Float64s") {
+					if sfc.HoldsAt(c.Block(), env.MustParse("s.Weights==nil")) {
+						r.OK("C-swap", "stats.(*Sample).Sort/Float64s-only-unweighted", a.W.InstrPos(c), "sort.Float64s(s.Xs) is reached only when there are no weights")
+					} else {
+						r.Fail("C-swap", "stats.(*Sample).Sort/Float64s-only-unweighted", a.W.InstrPos(c), "sort.Float64s is applied to the values although weights may be present (they would stay behind)")
+					}
+				}
+			}
 		})
 	}
 	// accumulations: rv = returned loop-carried value (possibly wrapped)
